@@ -152,6 +152,7 @@ struct Families {
 		fams.push_back({ "c-sat", satWords.size() * 4 * 16 });
 		fams.push_back({ "c-branch", branchProgs.size() * 2 * 2 * 4 });
 		fams.push_back({ "c-rcp", rcpCounts.size() * 2 * 2 * 4 });
+		fams.push_back({ "c-writer", (uint64_t)8 * 3 * 15 * 2 * 2 });
 		fams.push_back({ "d-random", sc((uint64_t)(t.thorough ? 1024 : 320) * 4) });
 	}
 	uint64_t total() const { uint64_t n = 0; for (auto& f : fams) n += f.count; return n; }
@@ -223,6 +224,21 @@ struct Families {
 			// exactly k effective IMUL_RCP (distinct odd divisors, rotating destination), spread from the start; every 16th slot after them an IXOR_R so values mix
 			for (unsigned s = 0; s < S && (int)s < k; ++s) c.setWord(s, W(T_IMUL_RCP, s & 7, 0, 0, 3 + 2 * s + ((s % 5 == 0) ? 0x80000000u : 0), (int)(s & 1)));
 			for (unsigned s = (unsigned)std::min<int>(k, (int)S); s < S; s += 16) c.setWord(s, W(T_IXOR_R, s / 16 & 7, (s / 16 + 1) & 7, 0, 0));
+		}
+		else if (fn == "c-writer") {
+			// last-writer bookkeeping with the branch FORCED taken (added after seeded change agent3_C19, DESIGN.md 8.9):
+			// r := 0; r ^= 0xFF << b; X (non-idempotent, reads r); N (touches r but must not count as a modification of it); Y;
+			// CBRANCH r with imm 0 -> taken exactly once per iteration, correct target = slot 2 (so X runs twice).
+			c.light = i % 2; i /= 2; c.v2 = i % 2; i /= 2;
+			unsigned ci = (unsigned)(i % 15); i /= 15; const unsigned conds[3] = { 0, 9, 15 }; unsigned cond = conds[i % 3]; i /= 3; unsigned r = (unsigned)i;
+			ctx16(c, (r + ci) & 15, e); fill(c, e);
+			const unsigned o = (r + 1) & 7, q = (r + 2) & 7;
+			const uint64_t cands[15] = { W(T_IMUL_RCP, r, 0, 0, 0), W(T_IMUL_RCP, r, 0, 0, 1), W(T_IMUL_RCP, r, 0, 0, 0x80000000u), W(T_IMUL_RCP, r, 0, 0, 65536), W(T_ISWAP_R, r, r, 0, 0),
+				W(T_ISTORE, r, o, 0x01, 0x40), W(T_ISTORE, o, r, 0xE0, 0x80), W(T_CFROUND, 0, r, 0, 7), W(T_FADD_M, 1, r, 0x01, 0x100), W(T_FDIV_M, 2, r, 0x00, 0x208), W(T_IADD_M, o, r, 0x01, 0x18), W(T_IXOR_R, o, r, 0, 0),
+				W(T_FSWAP_R, r, 0, 0, 0), W(T_IMUL_RCP, o, 0, 0, 5), NoOp() };
+			c.setWord(0, W(T_IMUL_R, r, r, 0, 0)); c.setWord(1, W(T_IXOR_R, r, r, 0, 0xFFu << (cond + 8)));
+			c.setWord(2, W(T_IADD_RS, q, r, 0x04, 0)); c.setWord(3, cands[ci]); c.setWord(4, W(T_ISTORE, q, o, 0x01, 0x1238));
+			c.setWord(5, W(T_CBRANCH, r, 0, cond << 4, 0)); c.setWord(6, W(T_IADD_RS, o, q, 0, 0));
 		}
 		else {   // d-random: AES-generated program buffers, as VmBase::generateProgram does (sampling, a sanity floor only)
 			i = spread(i);
